@@ -1,15 +1,15 @@
 """C06 Double-sign evidence is accepted only for genuine conflicts (spec/cert/DoubleSign.tla)."""
 import json
 
-FULL = {"Signers": '{"s1", "s2"}', "Heights": "{1, 2}", "Rounds": "{0, 1}", "Nids": "{0, 1, 2}",
+FULL = {"Signers": '{"s1", "s2"}', "Heights": "{1, 2}", "Rounds": "{0, 1}", "Nids": "{0, 1, 2, 9}",
         "Bodies": '{"x", "y", "nil"}', "Auxes": "{1, 2}"}
 # Us = unsigned part of a precommit (BTP vote bases / proof parts): 0 none, 1, 2 two different lists
 # one slot family of the log: the log is partitioned by (kind, signer, height, round)
-SLOT = {"Signers": '{"s1"}', "Heights": "{1}", "Rounds": "{0}", "Nids": "{0, 1, 2}",
+SLOT = {"Signers": '{"s1"}', "Heights": "{1}", "Rounds": "{0}", "Nids": "{0, 1, 2, 9}",
         "Bodies": '{"x", "y", "nil"}', "Auxes": "{1, 2}"}
-SLOT2 = {"Signers": '{"s1"}', "Heights": "{1}", "Rounds": "{0, 1}", "Nids": "{0, 1, 2}",
+SLOT2 = {"Signers": '{"s1"}', "Heights": "{1}", "Rounds": "{0, 1}", "Nids": "{0, 1, 2, 9}",
          "Bodies": '{"x", "nil"}', "Auxes": "{1, 2}"}
-SMALL = {"Signers": '{"s1", "s2"}', "Heights": "{1}", "Rounds": "{0, 1}", "Nids": "{0, 1, 2}",
+SMALL = {"Signers": '{"s1", "s2"}', "Heights": "{1}", "Rounds": "{0, 1}", "Nids": "{0, 1, 2, 9}",
          "Bodies": '{"x", "nil"}', "Auxes": "{1, 2}"}
 
 
@@ -22,11 +22,11 @@ def run(ctx):
       r1 = ctx.model_check("cert", "MC_DoubleSign", "MC_DoubleSign_pairs.cfg",
                          constants=dict(FULL, Heights=ctx.pick("{1}", "{1, 2}"), Us=us, MaxOps=1), coverage=True, timeout=900,
                          label="all ordered pairs")
-      ctx.check_coverage(r1, ["Receive", "Check"])
+      ctx.check_coverage(r1, ["Receive", "Check", "Decode"])
       r2 = ctx.model_check("cert", "MC_DoubleSign", "MC_DoubleSign.cfg",
                            constants=dict(ctx.pick(SLOT2, dict(SLOT, Bodies='{"x", "nil"}')), Us=us, MaxOps=ctx.pick(3, 4)), coverage=True, timeout=1500,
                            label="log sequences")
-      ctx.check_coverage(r2, ["Receive"], allow_zero=("Check",))
+      ctx.check_coverage(r2, ["Receive"], allow_zero=("Check", "Decode"))
       ctx.exhaustive = True
     items = []
     if ctx.replay:
@@ -55,7 +55,10 @@ def run(ctx):
         walks = ctx.behaviours("cert", "Gen_DoubleSign", "Gen_DoubleSign.cfg",
                                constants=dict(SMALL, Us=us, Mode='"log"', MaxOps=wl, Depth=wl),
                                simulate="num=%d" % ctx.pick(300, 4000), depth=wl + 2, seed=ctx.seed, timeout=900)
-        items += [dict(t="beh", steps=b) for b in bs + walks]
+        # 3b. bytes that are not a correctly signed message of the stated type, for every message of one slot family
+        dec = ctx.behaviours("cert", "Gen_DoubleSign", "Gen_DoubleSign.cfg",
+                             constants=dict(SLOT, Us="{0, 1}", Mode='"decode"', MaxOps=1, Depth=1), timeout=900)
+        items += [dict(t="beh", steps=b) for b in bs + walks + dec]
         for b in (walks[:1] + bs[-1:]):
             ctx.sample([dict(op=s["op"], m=s["m"], ev=s["ev"]) for s in b][:6])
         rule_n = (len(rows), len(bs), len(walks))
